@@ -366,7 +366,14 @@ class _FuncWalker:
             self.block(st.body)
             s1 = self._snap()
             self._restore(s0)
+            neg = _isinstance_names(st.test.operand) if isinstance(st.test, ast.UnaryOp) and isinstance(st.test.op, ast.Not) else []
+            for nm in neg:
+                if self.env.get(nm) in (HOSTILE, EVENT):
+                    self.env[nm] = TYPED   # the else branch runs when the isinstance test held
             self.block(st.orelse)
+            exits = bool(st.body) and isinstance(st.body[-1], (ast.Return, ast.Raise, ast.Continue, ast.Break))
+            if exits and neg:
+                return   # `if not isinstance(x, T): return ...` - what follows runs with x narrowed, the body's state does not flow on
             self._join(s1)
             return
         if isinstance(st, ast.While):
@@ -1161,6 +1168,18 @@ _SAFE_BUILTIN_NAMES = ("len str repr ascii format int float bool list dict tuple
                        "NotImplementedError AssertionError ArithmeticError OSError").split()
 
 
+def _is_generator(node) -> bool:
+    stack = list(getattr(node, "body", []))
+    while stack:
+        n = stack.pop()
+        if isinstance(n, (ast.Yield, ast.YieldFrom)):
+            return True
+        if isinstance(n, FUNC_TYPES + (ast.ClassDef,)):
+            continue
+        stack.extend(ast.iter_child_nodes(n))
+    return False
+
+
 class Interp:
     def __init__(self, globals_: Optional[Dict[str, object]] = None, budget: int = 200000):
         self.globals: Dict[str, object] = {n: getattr(_bi, n) for n in _SAFE_BUILTIN_NAMES}
@@ -1168,6 +1187,7 @@ class Interp:
         self.globals.update(globals_ or {})
         self.budget = budget
         self.log: List[tuple] = []
+        self._yields: List[list] = []
 
     # ---- setup ------------------------------------------------------------------------------------------------
     def load(self, mod, only=None):
@@ -1263,6 +1283,17 @@ class Interp:
         scopes = f.scopes + [local]
         if isinstance(node, ast.Lambda):
             return self.ev(node.body, scopes)
+        if _is_generator(node):
+            # generators are run eagerly (adequate for the pure generators the rules interpret)
+            self._yields.append([])
+            try:
+                try:
+                    self.block(node.body, scopes)
+                except _Ret:
+                    pass
+            finally:
+                produced = self._yields.pop()
+            return iter(produced)
         try:
             self.block(node.body, scopes)
         except _Ret as r:
@@ -1544,6 +1575,16 @@ class Interp:
             v = self.ev(e.value, scopes)
             self.assign(e.target, v, scopes)
             return v
+        if isinstance(e, ast.Yield):
+            if not self._yields:
+                raise AnalysisError("interp: yield outside a generator call")
+            self._yields[-1].append(self.ev(e.value, scopes) if e.value is not None else None)
+            return None
+        if isinstance(e, ast.YieldFrom):
+            if not self._yields:
+                raise AnalysisError("interp: yield outside a generator call")
+            self._yields[-1].extend(self.ev(e.value, scopes))
+            return None
         if isinstance(e, ast.Starred):
             raise AnalysisError("interp: starred expression")
         raise AnalysisError(f"interp: expression not modelled: {type(e).__name__} {src(e)[:50]}")
